@@ -718,8 +718,13 @@ func (vc *FuncVC) builtin(b *ssa.BasicBlock, ins ssa.Instruction, bi *ssa.Builti
 			sElem := slElem(s, j)
 			tElem := slElem(t, App(SInt, "-", j, n))
 			lhs := vc.load(st, resElem, es)
-			vc.emit("(assert %s)", Implies(reach, Forall([]Term{j}, Implies(And(App(SBool, "<=", IntLit(0), j), App(SBool, "<", j, n)), Eq(lhs, vc.load(pre, sElem, es))))).S)
+			// old elements are kept: usable from either side (a fact about s[j] says something about res[j] and back)
+			vc.emit("(assert %s)", Implies(reach, ForallAlt([]Term{j}, Implies(And(App(SBool, "<=", IntLit(0), j), App(SBool, "<", j, n)), Eq(lhs, vc.load(pre, sElem, es))), resElem, sElem)).S)
 			vc.emit("(assert %s)", Implies(reach, Forall([]Term{j}, Implies(And(App(SBool, "<=", n, j), App(SBool, "<", j, total)), Eq(lhs, vc.load(pre, tElem, es))))).S)
+			// the instance j = n of the axiom above, stated as a ground fact: `append(s, x)` puts x at index len(s). An
+			// existential goal about the result (some element equals ...) has no term that would trigger the axiom.
+			vc.emit("(assert %s)", Implies(And(reach, App(SBool, ">=", App(SInt, "slen", t), IntLit(1))),
+				Eq(vc.load(st, slElem(res, n), es), vc.load(pre, slElem(t, IntLit(0)), es))).S)
 		} else {
 			vc.assume(reach, Eq(App(SString, "bytes_str", res), App(SString, "str.++", App(SString, "bytes_str", s), t)))
 		}
